@@ -69,10 +69,9 @@ class SingleFilterSet(FilterSetInterface[FilterValueT], metaclass=ABCMeta):
             raise NotImplementedError()
 
     async def delete(self, name: str) -> None:
-        if name == self.name:
-            await self.replace_active(None)
-        else:
+        if name != self.name or await self.get_active() is None:
             raise KeyError(name)
+        await self.replace_active(None)
 
     async def rename(self, before_name: str, after_name: str) -> None:
         raise NotImplementedError()
@@ -81,7 +80,7 @@ class SingleFilterSet(FilterSetInterface[FilterValueT], metaclass=ABCMeta):
         raise NotImplementedError()
 
     async def set_active(self, name: str) -> None:
-        if name != self.name:
+        if name != self.name or await self.get_active() is None:
             raise KeyError(name)
 
     async def get(self, name: str) -> FilterValueT:
